@@ -14,6 +14,17 @@ CHECKS = {
                      'index/slice/iterate vs concatenation) is executed symbolically on the real code over all n,k,i,offset,'
                      'sub-sequence lengths, indices and slice bounds inside the stated bounds; z3 proves the postcondition on every path. '
                      'Bounded (not a proof): values beyond the bounds are outside the claim.'),
+    'C19': dict(engine='xh', level='other', design_ref='DESIGN.md#c19',
+                text='rebatched_args/_concat/_pad/_batch_size and TreeFn._iterate re-batching are executed symbolically for every input batch '
+                     'size, target size and batch-object aliasing pattern inside the bounds (number of input batches, container kind, columns, '
+                     'padding enumerated completely); z3 proves conservation of rows/order/alignment/batch sizes and non-mutation of the '
+                     'caller\'s batches on every path. Bounded.'),
+    'C10': dict(engine='xh', level='other', design_ref='DESIGN.md#c10',
+                text='state/from_state of SequenceIterator, DataIterator, MultiplexIterator (sequential), _RunnerIterator and '
+                     '_ChainedRunnerIterator executed symbolically with symbolic source length, shard configuration and cut positions for '
+                     'one, two and three successive checkpoint/restore cycles, incl. the original iterator continuing after the checkpoint and '
+                     'a double restore from one captured state; z3 proves "delivered-before ++ delivered-after == uninterrupted" and equal final '
+                     'aggregates on every path. Bounded; threaded configurations are outside the claim.'),
 }
 NA = {}
 PENDING = 'check not built yet (see DESIGN.md build order)'
